@@ -120,6 +120,52 @@ func unwrapA(wfk []byte, alg, name string, nonce, tag []byte) ([]byte, error) {
 
 type cachedKey struct{ buf, want []byte }
 
+var decryptCount int
+
+var busyKEK = bytes.Repeat([]byte{0x3D, 0x91}, 16)
+
+// busyInnerRoundTrip is what a busy key callback does before it answers: Encrypt and Decrypt a record of its own.
+// That round trip must itself be exact.
+func busyInnerRoundTrip(site string) {
+	pt := bytes.Repeat([]byte("key store record / "), 110) // ~2 KiB: overwrites the start of whatever buffer it is given
+	fail := func(what string, err error) {
+		rec.Violation(curIdx, "busy-unwrap/inner-round-trip/"+what, fmt.Sprintf("an independent enc/v1 round trip run inside the unwrap callback (outer document: %s) failed at %s: %v", site, what, err),
+			map[string]any{"outer": site, "inner_plaintext": "bytes.Repeat(\"key store record / \", 110)"})
+	}
+	k, err := kitcrypto.ParseKey([]byte(base64.StdEncoding.EncodeToString(busyKEK)), "")
+	if err != nil {
+		fail("key", err)
+		return
+	}
+	er, err := enc.Encrypt(bytes.NewReader(pt), enc.EncryptOptions{Algorithm: enc.KeyAlgorithmAES256KW, KeyName: "inner",
+		WrapKeyFn: func(fk []byte, a, n string, nonce []byte) ([]byte, []byte, error) {
+			w, _, err := kitcrypto.EncryptSymmetric(fk, "A256KW", k, nil, nil)
+			return w, nil, err
+		}})
+	if err != nil {
+		fail("encrypt", err)
+		return
+	}
+	ct, err := io.ReadAll(er)
+	if err != nil {
+		fail("encrypt-stream", err)
+		return
+	}
+	dr, err := enc.Decrypt(bytes.NewReader(ct), enc.DecryptOptions{UnwrapKeyFn: func(w []byte, a, n string, nonce, tag []byte) ([]byte, error) {
+		return kitcrypto.DecryptSymmetric(w, "A256KW", k, nil, nil, nil)
+	}})
+	if err != nil {
+		fail("decrypt", err)
+		return
+	}
+	got, err := io.ReadAll(dr)
+	if err != nil || !bytes.Equal(got, pt) {
+		fail("decrypt-stream", fmt.Errorf("err=%v, %d of %d bytes, equal=%v", err, len(got), len(pt), bytes.Equal(got, pt)))
+		return
+	}
+	rec.Count("busy_unwrap.inner_round_trips_exact", 1)
+}
+
 var (
 	keyCache = map[string]*cachedKey{}
 	curIdx   int
@@ -236,7 +282,7 @@ func makeDoc(label string, id int, sp baseSpec, kek int) (*base, error) {
 		return nil, fmt.Errorf("base document has an unexpected layout (%d segments, %d bytes)", len(d.Segments), len(b.doc))
 	}
 	// the unmutated document must decrypt with kit, otherwise nothing can be judged
-	o := run(&mutant{parts: [][]byte{b.doc}, unwrap: func(w []byte, a, n string, nonce, tag []byte) ([]byte, error) { return kekUnwrap(kek, w) }}, nil)
+	o := run(&mutant{parts: [][]byte{b.doc}, noBusy: true, unwrap: func(w []byte, a, n string, nonce, tag []byte) ([]byte, error) { return kekUnwrap(kek, w) }}, nil)
 	if o.decErr != nil || o.term != io.EOF || !bytes.Equal(o.got, b.pt) {
 		return nil, fmt.Errorf("kit.Decrypt does not decrypt the unmutated document (decrypt err=%v, stream err=%v, %d bytes)", o.decErr, o.term, len(o.got))
 	}
@@ -273,6 +319,8 @@ type mutant struct {
 	// intact: the document is NOT modified (overlap mode): the stream must give
 	// exactly the plaintext and a clean EOF
 	intact bool
+	// forceBusy / noBusy: always / never use the busy unwrap callback for this Decrypt
+	forceBusy, noBusy bool
 }
 
 func (m *mutant) length() int {
@@ -415,6 +463,20 @@ func start(m *mutant, rng *mon.RNG) *session {
 	uw := m.unwrap
 	if uw == nil {
 		uw = unwrapA
+	}
+	// BUSY UNWRAP CALLBACK: in every fourth Decrypt (and in every control document) the key callback first runs a
+	// complete enc/v1 round trip of its own - a key store that protects its records with the same package - so the
+	// package-level buffer pool is used between kit's reading of the header and its first segment.
+	decryptCount++
+	if m.forceBusy || (!m.noBusy && decryptCount%4 == 0) {
+		inner := uw
+		site := m.class + "@" + m.pos
+		uw = func(w []byte, a, n string, nonce, tag []byte) ([]byte, error) {
+			busyInnerRoundTrip(site)
+			return inner(w, a, n, nonce, tag)
+		}
+		o.style += "+busy-unwrap"
+		rec.Count("busy_unwrap.decrypts", 1)
 	}
 	func() {
 		defer func() {
@@ -1423,7 +1485,7 @@ func TestCheck(t *testing.T) {
 		"segment delete/duplicate/append/swap/drop-tail/drop-head for every segment; splices with a same-length document under the same and under another key-encryption key (payload, header, MAC line, manifest, single segment, tag, body); "+
 		"nine misbehaving unwrap callbacks; one-byte insertions (7 values) and deletions at every header offset and at segment landmarks; ~110 semantic header edits (JSON re-encodings that parse to the same values: white space, member order, member-name case, \\u escapes, duplicate and unknown members, unused base64 bits of np/wfk; changes of every field; MAC-line spellings; scheme line; line structure); "+
 		"for non-empty plaintexts every one of these header edits, every single-bit flip and every one-byte insertion/deletion of the header COMBINED with dropping all segments or keeping only the first k payload bytes; "+
-		"sticky source-reader errors at every header offset, around every boundary, mid-segment, in place of the final EOF, each alone (0, err) and together with the last data (n>0, err), and each with every member of an error family (private sentinel, io.ErrUnexpectedEOF plain and wrapped, io.ErrNoProgress, io.ErrClosedPipe, context.Canceled, wrapped os.ErrDeadlineExceeded, a net.Error-like timeout), plus seeded offsets with a seeded member; seeded compound mutations; FORGED documents (after the huge cases): built by refenc under a file key an attacker can guess (all zero, all 0xFF, 32 x 0x01, the wfk bytes, SHA-256 of the manifest or of the wfk, the padded key name) x both ciphers x plaintext lengths {0,1,1000,65536,65537} x wfk field {garbage, short garbage, another valid document's wfk} x 12 unwrap behaviours (honest, error, nil, empty, 3/31/33/64 bytes, that key WITH an error, other keys with and without error): every one must be refused without releasing a byte (an accepted EMPTY forged document is observed, not judged); OVERLAP mode: for the unmodified document and a sample of mutants of every class, the Decrypt stream is read to k bytes (k in {1,10,65535,65546}), then complete other operations run (decrypt of an unrelated valid document, of a tampered one, of attacker-supplied garbage, an Encrypt), then the rest is read - or the stream is given up and closed after three such operations; the outer stream and every inner operation are judged by the same rule (an unmodified document must give exactly its plaintext). "+
+		"sticky source-reader errors at every header offset, around every boundary, mid-segment, in place of the final EOF, each alone (0, err) and together with the last data (n>0, err), and each with every member of an error family (private sentinel, io.ErrUnexpectedEOF plain and wrapped, io.ErrNoProgress, io.ErrClosedPipe, context.Canceled, wrapped os.ErrDeadlineExceeded, a net.Error-like timeout), plus seeded offsets with a seeded member; seeded compound mutations; BUSY UNWRAP CALLBACK: in every fourth Decrypt of every family (tampered, truncated, forged, overlapped ... documents, honest and hostile callbacks alike) and for one unmodified control document per (base document, family) case, the unwrap callback first runs a complete inner enc/v1 Encrypt->Decrypt round trip of a ~2 KiB record through the same package (which must itself be exact) and only then answers - the package-level pools are used between kit's header read and its first segment; the oracle of the outer document is unchanged (a control document must decrypt exactly). FORGED documents (after the huge cases): built by refenc under a file key an attacker can guess (all zero, all 0xFF, 32 x 0x01, the wfk bytes, SHA-256 of the manifest or of the wfk, the padded key name) x both ciphers x plaintext lengths {0,1,1000,65536,65537} x wfk field {garbage, short garbage, another valid document's wfk} x 12 unwrap behaviours (honest, error, nil, empty, 3/31/33/64 bytes, that key WITH an error, other keys with and without error): every one must be refused without releasing a byte (an accepted EMPTY forged document is observed, not judged); OVERLAP mode: for the unmodified document and a sample of mutants of every class, the Decrypt stream is read to k bytes (k in {1,10,65535,65546}), then complete other operations run (decrypt of an unrelated valid document, of a tampered one, of attacker-supplied garbage, an Encrypt), then the rest is read - or the stream is given up and closed after three such operations; the outer stream and every inner operation are judged by the same rule (an unmodified document must give exactly its plaintext). "+
 		"Huge tamper cases (after the ordinary ones, each run by one child; quick: AES-GCM, thorough: both ciphers): kit.Encrypt of a generated 4 GiB + 128 KiB + 100 byte plaintext (65539 segments, every one different) is streamed to a scratch file, then (a) segment 65536 is replaced by a copy of segment 0 and (b) segments 1 and 65537 are swapped, the tampered document is streamed through kit.Decrypt and the released bytes are compared position by position with the generator - the only mutants in which segment numbers differ in the upper half of the nonce's 32-bit counter. "+
 		"Every mutant is decrypted by the real kit.Decrypt through an all-at-once or seeded-chunk reader and read to the end. Rule: Decrypt error OR non-EOF stream error OR (bytes == plaintext AND EOF), and the released bytes are a prefix of the plaintext; "+
 		"for a source error an error is mandatory. A payload-less mutant that kit turns into \"\" + clean EOF is classified by the independent implementation (refenc.CheckHeader: does the MAC over the raw first two lines verify?): authentic header = the known format-level finding truncate@header-end/nonempty; header rejected by the reference = a violation with the mutation's own signature; only the MAC-line spelling differs (kit lenient, reference strict) = observed, not judged. Accepted mutants with identical plaintext whose header the reference rejects are counted (accepted_identical_but_header_fails_reference_mac), not judged. Mutants equal to the original are skipped. Evaluations = mutants judged; enumerated families are distinct by construction, seeded compound mutants are keyed by their description; non-trivial = every mutant (it differs from the original or carries a fault).")
@@ -1431,7 +1493,7 @@ func TestCheck(t *testing.T) {
 		"srcerr.surfaced", "truncate.at.segment-boundary", "truncate.at.header-end", "truncate.at.segment-tag", "truncate.at.segment-body", "srcerr.at.final-eof", "srcerr.at.final-eof+data",
 		"rejected_or_identical.seg-swap", "rejected_or_identical.splice-samekek", "rejected_or_identical.splice-otherkek", "rejected_or_identical.unwrap", "rejected_or_identical.extend",
 		"huge.tamper_rejected.seg-replace", "huge.tamper_rejected.seg-swap", "huge.rejected_exactly_at_segment_65536",
-		"callback.key_cache_verified", "forged.documents_judged", "forged.refused_by_decrypt", "forged.unwrap.honest", "forged.unwrap.error", "forged.unwrap.that-key-with-error", "forged.unwrap.64-bytes",
+		"busy_unwrap.decrypts", "busy_unwrap.inner_round_trips_exact", "busy_unwrap.control_documents_exact", "callback.key_cache_verified", "forged.documents_judged", "forged.refused_by_decrypt", "forged.unwrap.honest", "forged.unwrap.error", "forged.unwrap.that-key-with-error", "forged.unwrap.64-bytes",
 		"overlap.cases", "overlap.outer_stream_was_half_read", "overlap.intact_stream_exact", "overlap.abandoned_cases", "overlap.abandoned_stream_prefix_ok", "overlap.abandoned_stream_closed",
 		"overlap.inner.decrypt-valid", "overlap.inner.decrypt-tampered", "overlap.inner.decrypt-garbage", "overlap.inner.encrypt_ok",
 		"rejected_or_identical.srcerr", "rejected_or_identical.srcerr(unexpected-eof)", "rejected_or_identical.srcerr(wrapped-unexpected-eof)", "rejected_or_identical.srcerr(context-canceled)", "srcerr.surfaced_as_the_injected_error",
@@ -1487,6 +1549,13 @@ func TestCheck(t *testing.T) {
 			continue
 		}
 		j := &judgeCtx{idx: idx, b: b, rng: mon.NewRNG("c02-case", idx)}
+		// control: the unmodified document, decrypted with the busy unwrap callback, must come out exactly
+		ctl := &mutant{class: "control", pos: "busy-unwrap", desc: "unmodified document, unwrap callback runs an inner enc/v1 round trip first", parts: [][]byte{b.doc}, intact: true, forceBusy: true}
+		before := rec.Violations()
+		j.evaluate(ctl, run(ctl, nil))
+		if rec.Violations() == before {
+			rec.Count("busy_unwrap.control_documents_exact", 1)
+		}
 		families[c.family].run(j)
 		rec.Count("family."+families[c.family].name, int(j.n))
 		if families[c.family].name == "compound" {
